@@ -485,7 +485,9 @@ def make_replayer(ck, modname, driver, build, params=None, race_driver=None):
         obs, transcript = kanicheck.native_driver(modname, use_driver, case)
         payload["observed"] = obs
         payload["transcript_tail"] = transcript[-1500:]
-        rp = write_replay(ck.pid, q.name.replace("/", "_")[:100], payload)
+        import hashlib as _hl
+
+        rp = write_replay(ck.pid, q.name.replace("/", "_")[:100] + "-" + _hl.sha1(q.name.encode()).hexdigest()[:8], payload)
         if obs is None:
             return None, "driver produced no observation: " + transcript[-400:], rp
         if q.meta.get("side_kind") == "atomicity":
